@@ -12,7 +12,7 @@ def nt_range(suite, case, impl):
     return False
 
 
-HOOK_COMMITS = []
+HOOK_COMMITS = ["4913322", "a563a34"]
 
 LEVEL_NOTE_COMMON = "Trusted: Lean 4.33 kernel (axioms propext, Classical.choice, Quot.sound only; audited per theorem on every run); the hand-written model, whose agreement with /repo is checked by differential execution on every run, not proved; the Go harness/canonicalisation; "
 
@@ -33,7 +33,87 @@ def nt_server(suite, case, impl):
     return "sub" in ops and "push" in ops and "recv" in ops
 
 
+def proj_forkable(pid, suite, case, lines):
+    """Per-property projection of the forkable line protocol (same function for impl and model lines)."""
+    if suite != "forkable":
+        return lines
+    out = []
+    for l in lines:
+        w = l.split()
+        if not w:
+            continue
+        if pid == "C01":
+            if w[0] == "ev" and w[1] in ("new", "undo"):
+                out.append(" ".join(w[:4]))
+            elif w[0] == "ret":
+                out.append(l)
+        elif pid == "C02":
+            if w[0] == "ev" and w[1] in ("irr", "stalled"):
+                out.append(" ".join(w[:5] + w[7:9]))
+        elif pid == "C03":
+            if w[0] == "q" and w[1] == "head":
+                out.append(l)
+            elif w[0] == "ev" and w[1] in ("irr", "new", "undo"):
+                out.append(" ".join(w[:3]))
+            elif w[0] == "twin":
+                out.append(l)
+        elif pid == "C04":
+            if w[0] == "ev":
+                out.append(l)
+        elif pid == "C18":
+            if w[0] == "q":
+                out.append(l)
+        else:
+            out.append(l)
+    return out
+
+
+def nt_forkable(suite, case, impl):
+    # non-trivial: the history contains at least one reorganisation (an Undo) or a LIB move (an Irreversible)
+    return any(l.startswith("impl ev undo") or l.startswith("impl ev irr") for l in case["lines"])
+
+
+FORKABLE_RULE = ("cases = generated block tree (3-14 blocks + root; forks at any height with bias 0-50%, skipped numbers, 1-2 never-linking orphans, "
+                 "LIB declarations by policy lagging/jumping/per-branch speed/frozen, 1 in 12 trees with malformed LIB declarations, 1 in 10 roots with empty parent id) x arrival order "
+                 "(creation order / windowed shuffle / full shuffle / by height) with 0-25% re-fed duplicates x configuration (exclusive / inclusive / hold-until-LIB discovery root, root block fed or not, "
+                 "kept in {0,1,2,5,100}, all-blocks-trigger, filters 51/3/19/35, first streamable block = root or 0) x optional handler failure at call 0-3 of one block; "
+                 "half of the failure-free cases are re-run under another kept value and with re-fed noise (twins); queries after every block. "
+                 "distinct = sha1 of header+ops; non-trivial = at least one Undo or Irreversible event delivered")
+FORKABLE_TB = ["Forkable.ProcessBlock / ForkDB modelled statement by statement in Model/Forkable.lean, Model/ForkDB.lean (Go maps as one keyed entry list, uint64 heights as Nat); EnsureBlockFlows and the unlinkable-block counters are not modelled (never enabled)"]
+
 PROPS = {
+    "C01": {
+        "suites": [("forkable", 3000, 40000)], "props": ["C01"], "level": "other",
+        "projection": proj_forkable, "nontrivial": nt_forkable, "rule": FORKABLE_RULE, "trusted_base": FORKABLE_TB,
+        "technique": "Lean 4 model of Forkable.ProcessBlock + consumer-discipline monitor (Lean) on the implementation's traces + differential correspondence; invariant proof in progress",
+        "level_text": "PLACEHOLDER",
+        "level_note": LEVEL_NOTE_COMMON,
+        "explanation": "PLACEHOLDER",
+    },
+    "C02": {
+        "suites": [("forkable", 3000, 40000)], "props": ["C02"], "level": "other",
+        "projection": proj_forkable, "nontrivial": nt_forkable, "rule": FORKABLE_RULE, "trusted_base": FORKABLE_TB,
+        "technique": "Lean 4 model of Forkable.ProcessBlock + finality monitor (Lean) on the implementation's traces + differential correspondence",
+        "level_text": "PLACEHOLDER", "level_note": LEVEL_NOTE_COMMON, "explanation": "PLACEHOLDER",
+    },
+    "C03": {
+        "suites": [("forkable", 3000, 40000)], "props": ["C03"], "level": "other",
+        "projection": proj_forkable, "nontrivial": nt_forkable, "rule": FORKABLE_RULE, "trusted_base": FORKABLE_TB,
+        "technique": "Lean 4 reference fork-choice specification evaluated against the implementation after every block + retention/noise twin runs + differential correspondence",
+        "level_text": "PLACEHOLDER", "level_note": LEVEL_NOTE_COMMON, "explanation": "PLACEHOLDER",
+    },
+    "C04": {
+        "suites": [("forkable", 3000, 40000)], "props": ["C04"], "level": "other",
+        "projection": proj_forkable, "nontrivial": nt_forkable, "rule": FORKABLE_RULE, "trusted_base": FORKABLE_TB,
+        "technique": "Lean 4 model computing every cursor field + cursor monitor (Lean) on the implementation's traces + differential correspondence of all cursor fields",
+        "level_text": "PLACEHOLDER", "level_note": LEVEL_NOTE_COMMON, "explanation": "PLACEHOLDER",
+    },
+    "C18": {
+        "suites": [("forkable", 3000, 40000)], "props": ["C18"], "level": "other",
+        "projection": proj_forkable, "nontrivial": nt_forkable, "rule": FORKABLE_RULE, "trusted_base": FORKABLE_TB,
+        "technique": "Lean 4 model of the ForkDB window and lookups + query monitor (Lean) after every block + differential correspondence of AllIDs/AllBlocksAt/GetBlockByHash/CanonicalBlockAt/HeadInfo/LowestBlockNum",
+        "level_text": "PLACEHOLDER", "level_note": LEVEL_NOTE_COMMON, "explanation": "PLACEHOLDER",
+    },
     "C20": {
         "suites": [("server", 1500, 20000)],
         "props": ["C20"],
